@@ -14,6 +14,8 @@ Definition is_system (l : label) : bool :=
   match l with
   | LCall _ _ | LEmit _ _ | LTrigR _ | LTrigS _ | LParentCancel | LSubscribe _ | LSubRecv _ _
   | LSubCancel _ | LSubClosed _ | LSubRel _ | LPollBegin _ | LQuiet | LSnap _ => false
+  | LRunEnter => false                       (* the environment calls Run() *)
+  | LSeenEntered => false                    (* an observation *)
   | LPoll _ b => b
   | _ => true
   end.
@@ -21,10 +23,11 @@ Definition is_system (l : label) : bool :=
 (* ---------------------------------------------------------------- the measure *)
 
 (* weight of one accepted-or-pending reload request: more than a whole reload pass *)
-Definition W (c : config) : nat := 2 * nrun c + 3.
+Definition W (c : config) : nat := 2 * nrun c + 4.
 
 Definition main_rank (m : main_pc) : nat :=
   match m with
+  | MNew => 10 | MEntering => 9
   | MGate _ => 8 | MGateCheck _ => 7 | MLaunch _ => 6 | MReap => 5 | MExit _ => 4 | MWaitSd _ => 3
   | MReturned _ => 0
   end.
@@ -53,8 +56,12 @@ Definition caller_w (c : config) (kc : nat * op * cstate) : nat :=
   end.
 
 Definition sig_w (c : config) (g : sig) : nat := match g with SigHup => W c + 1 | _ => 1 end.
-Definition lsr_w (c : config) (p : ls_pc) : nat := match p with LsFwd => W c | _ => 0 end.
-Definition mon_rank (p : mon_pc) : nat := match p with MoNot => 4 | MoBcast _ => 1 | _ => 0 end.
+(* every live helper goroutine (trigger listener, state monitor, pending SIGHUP sender, trigger-spawned Shutdown
+   caller) weighs at least 1: its exit is a step of the implementation too *)
+Definition lsr_w (c : config) (p : ls_pc) : nat := match p with LsFwd => W c | LsIdle => 1 | _ => 0 end.
+Definition lss_w (p : ls_pc) : nat := match p with LsIdle | LsFwd => 1 | _ => 0 end.
+Definition mon_rank (p : mon_pc) : nat :=
+  match p with MoNot => 5 | MoBcast _ => 2 | MoFirst | MoLoop _ => 1 | _ => 0 end.
 Definition sub_w (b : subscriber) : nat :=
   (if sub_started b then 0 else 2) + (if sub_closed b then 0 else 1).
 Definition b2n (b : bool) : nat := if b then 1 else 0.
@@ -63,7 +70,8 @@ Definition rt_w (c : config) (t : nat) : nat := t * (W c + 1).
 Definition mu (c : config) (s : state) : nat :=
   main_rank (main s) + sd_rank (sd s) + list_sum (map rn_rank (rn s)) + rm_rank c (rm s)
   + hup s * W c + list_sum (map (caller_w c) (callers s)) + list_sum (map (sig_w c) (sigq s))
-  + list_sum (map (rt_w c) (rtrig (aux s))) + list_sum (map (lsr_w c) (rls s)) + list_sum (strig (aux s))
+  + list_sum (map (rt_w c) (rtrig (aux s))) + list_sum (map (lsr_w c) (rls s)) + 2 * list_sum (strig (aux s))
+  + list_sum (map lss_w (sls s)) + sd_trig s
   + b2n (negb (sdm_done s)) + b2n (negb (stm_done s))
   + list_sum (map mon_rank (mon s)) + 2 * list_sum (map (@length st) (mq s))
   + list_sum (map sub_w (subs s)).
@@ -150,6 +158,12 @@ Proof.
   unfold list_sum in IH. rewrite IH. destruct a; reflexivity.
 Qed.
 
+Lemma sum_mark_lss l : list_sum (map lss_w (mark_ls_done l)) = 0.
+Proof.
+  unfold mark_ls_done. induction l as [|a l IH]; [reflexivity|]. cbn [map list_sum fold_right].
+  unfold list_sum in IH. rewrite IH. destruct a; reflexivity.
+Qed.
+
 Lemma sum_mark_mon l : list_sum (map mon_rank (mark_mon_done l)) = 0.
 Proof.
   unfold mark_mon_done. induction l as [|a l IH]; [reflexivity|]. cbn [map list_sum fold_right].
@@ -199,6 +213,7 @@ Ltac upd0_one :=
 
 Ltac mu_facts c :=
   repeat upd_one rn_rank RnDone; repeat upd_one (rt_w c) 0; repeat upd_one (lsr_w c) LsAbsent;
+  repeat upd_one lss_w LsAbsent;
   repeat upd0_one; repeat upd_one mon_rank MoAbsent; repeat upd_one (@length st) (@nil st);
   try match goal with E : find_caller ?k (callers ?s) = Some _ |- _ =>
         pose proof (sum_del_caller (caller_w c) k _ _ _ E) as Hdel;
@@ -234,12 +249,12 @@ Ltac mu_solve c :=
   repeat match goal with o : op |- _ => destruct o end;
   repeat match goal with g : sig |- _ => destruct g end;
   try discriminate;
-  rewrite ?sum_cons, ?sum_snoc, ?sum_mark_ls, ?sum_mark_mon, ?sum_clear_mq, ?sd_next_rank;
+  rewrite ?sum_cons, ?sum_snoc, ?sum_mark_ls, ?sum_mark_lss, ?sum_mark_mon, ?sum_clear_mq, ?sd_next_rank;
   try match goal with |- context [after_launch ?c ?i] => pose proof (after_launch_rank c i) end;
   try match goal with |- context [rm_after ?c ?j] =>
         let E := fresh "E" in
         destruct (rm_after_shape c j) as [E|(? & E & ? & ?)]; rewrite E end;
-  cbn [main_rank sd_rank rn_rank rm_rank caller_w sig_w lsr_w mon_rank sub_w b2n negb rt_w length
+  cbn [main_rank sd_rank rn_rank rm_rank caller_w sig_w lsr_w lss_w mon_rank sub_w b2n negb rt_w length
        sub_started sub_closed map list_sum fold_right] in *;
   repeat match goal with H : context [caller_w ?c (?k, ?o, ?cs)] |- _ =>
            pose proof (caller_w_pos c (k, o, cs)); generalize dependent (caller_w c (k, o, cs)); intros end;
@@ -331,64 +346,155 @@ Qed.
 Definition system_stuck (c : config) (s : state) : Prop :=
   forall l, is_system l = true -> step c s l = None.
 
-Lemma progress_is_system l : is_progress l = true -> is_system l = true.
-Proof. destruct l; cbn; try discriminate; auto. destruct b; auto. Qed.
-
-Lemma stuck_no_progress c s : system_stuck c s -> ~ can_progress c s.
-Proof. intros St (l & Hp & Hs). apply Hs. apply St. now apply progress_is_system. Qed.
-
-(* sup_c02_main_progress does not use its hypothesis that the timeout has not fired *)
-Lemma main_progress_any c s :
-  0 < nrun c -> reachable_sup c s -> sd s = SdDone -> (exists r, main s = MReturned r) \/ can_progress c s.
+(* with measure 0 after shutdown start, nothing of the implementation is enabled *)
+Lemma mu_zero_stuck c s : sd s <> SdNot -> mu c s = 0 -> system_stuck c s.
 Proof.
-  intros Hn Hre Es.
-  pose proof (InvWg_reachable _ _ Hre) as [W1 _]. rewrite Es in W1.
-  assert (Hc : ctx_done s = true) by (unfold ctx_done; rewrite W1; reflexivity).
-  pose proof (InvGate_reachable _ _ Hre) as IG.
-  destruct (main s) eqn:Em.
-  - right. destruct (Nat.ltb i (nrun c)) eqn:L.
-    + enabled (LLaunch i). unfold step. cbn [step0]. rewrite Em, Nat.eqb_refl, L, Es. cbn. discriminate.
-    + exfalso. apply Nat.ltb_ge in L. pose proof (launch_idx_lt c s Hn Hre i Em). lia.
-  - right. destruct (polling (aux s)) eqn:Ep.
-    + enabled (LPoll i true). unfold step. cbn [step0]. rewrite Em, Nat.eqb_refl. discriminate.
-    + enabled (LGateCtx i). unfold step. cbn [step0]. rewrite Em, Nat.eqb_refl, Hc, Ep. cbn.
-      destruct (errq s); discriminate.
-  - right. enabled (LGateDecide i). unfold step. cbn [step0]. rewrite Em, Nat.eqb_refl.
-    destruct (errq s); discriminate.
-  - right. enabled LReapCtx. unfold step. cbn [step0]. rewrite Em, Hc. discriminate.
-  - right. enabled LMainShutdown. unfold step. cbn [step0]. rewrite Em. discriminate.
-  - right. enabled (LMainReturn r). unfold step. cbn [step0]. rewrite Em, Es.
-    destruct r; try discriminate. rewrite Nat.eqb_refl. discriminate.
-  - left. eexists; reflexivity.
+  intros Hsd M l Hl. destruct (step c s l) as [s2|] eqn:E; [|reflexivity]. exfalso.
+  pose proof (mu_system_step _ _ _ _ Hsd Hl E) as X. rewrite M in X. inversion X.
 Qed.
 
+Lemma body_step_system s l : body_step s l = true -> is_system l = true.
+Proof. unfold body_step. destruct (sd s) as [|[|k]| | | |]; destruct l; cbn; try discriminate; auto; destruct e; auto; discriminate. Qed.
+
+Lemma main_step_system s l : main_step s l = true -> is_system l = true.
+Proof. destruct l; cbn; try discriminate; auto. destruct b; auto; discriminate. Qed.
+
+Lemma caller_step_system k l : caller_step k l = true -> is_system l = true.
+Proof. destruct l; cbn; try discriminate; auto. Qed.
+
 (* a reachable post-shutdown state in which the implementation cannot move: the shutdown body is
-   done, Run() has returned, and no Shutdown() caller is left inside the library *)
+   done, Run() has returned (or was never called), and no Shutdown() caller is left inside the library *)
 Theorem sup_c02_stuck_returned c s :
-  good c -> 0 < nrun c -> reachable_sup c s -> sd s <> SdNot -> system_stuck c s ->
-  sd s = SdDone /\ (exists r, main s = MReturned r) /\
+  good c -> 0 < nrun c -> reachable_sup c s -> sd s <> SdNot -> sdfirst_ok c s -> system_stuck c s ->
+  sd s = SdDone /\ (main s = MNew \/ exists r, main s = MReturned r) /\
   (forall k cs, find_caller k (callers s) <> Some (OpShutdown, cs)).
 Proof.
-  intros G Hn Hre Hsd St. pose proof (stuck_no_progress _ _ St) as NP.
+  intros G Hn Hre Hsd Hok St.
   assert (Es : sd s = SdDone).
-  { pose proof (sup_c02_body_progress c s Hre G) as B. destruct (sd s); try contradiction; congruence. }
+  { pose proof (sup_c02_body_progress c s Hre G Hok) as B.
+    destruct (sd s); try congruence; exfalso; destruct B as (l & Hl & Hs); apply Hs, St;
+      eapply body_step_system; exact Hl. }
   split; [exact Es|]. split.
-  - destruct (main_progress_any c s Hn Hre Es) as [X|X]; [exact X|contradiction].
-  - intros k cs Hf. apply NP. eapply sup_c02_caller_returns; eassumption.
+  - destruct (sup_c02_main_progress c s Hn Hre Es) as [X|[X|(l & Hl & Hs)]]; [now left|now right|].
+    exfalso. apply Hs, St. eapply main_step_system; exact Hl.
+  - intros k cs Hf. destruct (sup_c02_caller_returns c s k cs Es Hf) as (l & Hl & Hs).
+    apply Hs, St. eapply caller_step_system; exact Hl.
+Qed.
+
+(* sdfirst_ok is about a flag that no step clears and about the configuration: it is stable *)
+Lemma sdfirst_ok_step c s l s' :
+  sd s <> SdNot -> sdfirst_ok c s -> step c s l = Some s' -> sdfirst_ok c s'.
+Proof.
+  intros Hsd Hok H A. apply Hok.
+  destruct (step_sd_all _ _ _ _ H) as [[E _]|(X & _)]; [congruence|contradiction].
+Qed.
+
+Lemma sdfirst_ok_run c ls : forall s s',
+  sd s <> SdNot -> sdfirst_ok c s -> run (step c) s ls = Some s' -> sdfirst_ok c s'.
+Proof.
+  induction ls as [|l ls IH]; intros s s' Hsd Hok H.
+  - now injection H as <-.
+  - cbn [run] in H. destruct (step c s l) as [s1|] eqn:E; [|discriminate].
+    eapply IH; [eapply post_shutdown_step; eassumption|eapply sdfirst_ok_step; eassumption|exact H].
 Qed.
 
 (* every maximal execution of the implementation after shutdown start is finite and ends with
    Run() returned *)
 Theorem sup_c02_maximal c s ls s' :
-  good c -> 0 < nrun c -> reachable_sup c s -> sd s <> SdNot ->
+  good c -> 0 < nrun c -> reachable_sup c s -> sd s <> SdNot -> sdfirst_ok c s ->
   run (step c) s ls = Some s' -> forallb is_system ls = true ->
   length ls <= mu c s /\
-  (system_stuck c s' -> sd s' = SdDone /\ exists r, main s' = MReturned r).
+  (system_stuck c s' -> sd s' = SdDone /\ (main s' = MNew \/ exists r, main s' = MReturned r)).
 Proof.
-  intros G Hn Hre Hsd H Hall. split; [eapply sup_c02_terminates; eassumption|].
+  intros G Hn Hre Hsd Hok H Hall. split; [eapply sup_c02_terminates; eassumption|].
   intros St.
   assert (Hre' : reachable_sup c s').
   { destruct Hre as [ls0 H0]. exists (ls0 ++ ls). now rewrite run_app, H0. }
   pose proof (post_shutdown_run _ _ _ _ Hsd H) as Hsd'.
-  destruct (sup_c02_stuck_returned c s' G Hn Hre' Hsd' St) as (A & B & _). now split.
+  pose proof (sdfirst_ok_run _ _ _ _ Hsd Hok H) as Hok'.
+  destruct (sup_c02_stuck_returned c s' G Hn Hre' Hsd' Hok' St) as (A & B & _). now split.
 Qed.
+
+(* ---------------------------------------------------------------- the timeout sentence of C02 *)
+
+(* "If some runnable never returns, Run() and Shutdown() still return once the timeout has elapsed": with a
+   shutdown timeout that can fire and NON-BLOCKING Stops - whatever the runnables' Run does, never returning
+   included (no `good`) - the shutdown body always has a step of its own or its timer: *)
+Lemma timeout_body_progress c s :
+  shutdown_may_fire c = true -> (forall i, i < nrun c -> stop_style (spec c i) = StopNonBlocking) ->
+  reachable_sup c s ->
+  match sd s with
+  | SdNot | SdDone => True
+  | _ => exists l, (body_step s l = true \/ l = LSdTimeout) /\ step c s l <> None
+  end.
+Proof.
+  intros Hf NB Hre.
+  assert (Hblk : forall i, sd s = SdIn i -> stop_style (spec c i) = StopUntilRunDone ->
+                           rn_at s i <> RnNot /\ run_exit (spec c i) <> ExitNever).
+  { intros i Es St. rewrite (NB i (stopping_lt c s i Hre Es)) in St. discriminate St. }
+  pose proof (stop_loop_progress c s Hre Hblk) as B.
+  destruct (sd s) eqn:Es; try exact Logic.I;
+    try (destruct B as (l & Hl & Hs); exists l; split; [left; exact Hl|exact Hs]).
+  exists LSdTimeout. split; [now right|]. apply sup_c02_timeout_enabled; assumption.
+Qed.
+
+(* ... so a state in which the implementation (timers included) cannot move has the shutdown body done,
+   Run() returned (or never called) and no Shutdown() caller inside *)
+Theorem sup_c02_timeout_stuck_returned c s :
+  shutdown_may_fire c = true -> (forall i, i < nrun c -> stop_style (spec c i) = StopNonBlocking) ->
+  0 < nrun c -> reachable_sup c s -> sd s <> SdNot -> system_stuck c s ->
+  sd s = SdDone /\ (main s = MNew \/ exists r, main s = MReturned r) /\
+  (forall k cs, find_caller k (callers s) <> Some (OpShutdown, cs)).
+Proof.
+  intros Hf NB Hn Hre Hsd St.
+  assert (Es : sd s = SdDone).
+  { pose proof (timeout_body_progress c s Hf NB Hre) as B.
+    destruct (sd s); try congruence; exfalso; destruct B as (l & [Hl| ->] & Hs); apply Hs, St;
+      first [eapply body_step_system; exact Hl|reflexivity]. }
+  split; [exact Es|]. split.
+  - destruct (sup_c02_main_progress c s Hn Hre Es) as [X|[X|(l & Hl & Hs)]]; [now left|now right|].
+    exfalso. apply Hs, St. eapply main_step_system; exact Hl.
+  - intros k cs Hf' . destruct (sup_c02_caller_returns c s k cs Es Hf') as (l & Hl & Hs).
+    apply Hs, St. eapply caller_step_system; exact Hl.
+Qed.
+
+(* every maximal execution of implementation steps (timers included) after shutdown start is finite and ends
+   there *)
+Theorem sup_c02_timeout_maximal c s ls s' :
+  shutdown_may_fire c = true -> (forall i, i < nrun c -> stop_style (spec c i) = StopNonBlocking) ->
+  0 < nrun c -> reachable_sup c s -> sd s <> SdNot ->
+  run (step c) s ls = Some s' -> forallb is_system ls = true ->
+  length ls <= mu c s /\
+  (system_stuck c s' -> sd s' = SdDone /\ (main s' = MNew \/ exists r, main s' = MReturned r) /\
+                        (forall k cs, find_caller k (callers s') <> Some (OpShutdown, cs))).
+Proof.
+  intros Hf NB Hn Hre Hsd H Hall. split; [eapply sup_c02_terminates; eassumption|].
+  intros St.
+  assert (Hre' : reachable_sup c s').
+  { destruct Hre as [ls0 H0]. exists (ls0 ++ ls). now rewrite run_app, H0. }
+  pose proof (post_shutdown_run _ _ _ _ Hsd H) as Hsd'.
+  exact (sup_c02_timeout_stuck_returned c s' Hf NB Hn Hre' Hsd' St).
+Qed.
+
+(* for Examples: a concrete (closed) state in which no step of the implementation is enabled; case analysis on
+   the label and its indices, each case decided by computation *)
+Ltac concrete_stuck :=
+  let l := fresh "l" in let Hl := fresh "Hl" in
+  unfold system_stuck; intros l Hl; destruct l; try discriminate Hl; unfold step; cbn [step0];
+  repeat match goal with
+         | |- context [Nat.eqb ?i ?j] => is_var i; destruct i
+         | |- context [Nat.ltb ?i ?j] => is_var i; destruct i
+         | |- context [find_caller ?k _] => is_var k; destruct k as [|[|?]]
+         | |- context [find_sub ?k _] => is_var k; destruct k
+         | |- context [get _ _ ?k] => is_var k; destruct k
+         | |- context [rn_at _ ?k] => is_var k; destruct k
+         | |- context [mon_at _ ?k] => is_var k; destruct k
+         | o : op |- _ => destruct o
+         | g : sig |- _ => destruct g
+         | w : sender |- _ => destruct w
+         | r : result |- _ => destruct r
+         | b : bool |- _ => destruct b
+         end;
+  try discriminate Hl; vm_compute;
+  repeat (try reflexivity; match goal with |- context [match ?i with _ => _ end] => is_var i; destruct i; vm_compute end);
+  try reflexivity.
